@@ -18,6 +18,7 @@ import (
 	"strings"
 	"testing"
 	"testing/synctest"
+	"time"
 
 	"github.com/creachadair/jrpc2"
 	"github.com/creachadair/jrpc2/handler"
@@ -129,7 +130,7 @@ func Concrete(c cellJSON, k int, variant int, rng *rand.Rand) string {
 	case "unknownKey":
 		// member names are case-sensitive: "Method" or "ID" are unknown members like any other (encoding/json would fold them)
 		uk := [][2]string{{"zzz", `1`}, {"Method", `"h"`}, {"ID", `77`}, {"JSONRPC", `"2.0"`}, {"Params", `[1]`}, {"METHOD", `"h"`}, {"Id", `5`}, {"j\u017fonrpc", `"2.0"`},
-			{"Result", `1`}, {"Error", `{"code":1,"message":"m"}`}, {"bogus", `null`}, {"Method", `null`}, {"", `null`}, {"", `1`}}   // (an unknown member is unknown whatever its value)
+			{"Result", `1`}, {"Error", `{"code":1,"message":"m"}`}, {"bogus", `null`}, {"Method", `null`}, {"", `null`}, {"", `1`}} // (an unknown member is unknown whatever its value)
 		kv = append(kv, uk[(k+variant)%len(uk)])
 	case "result":
 		kv = append(kv, [2]string{"result", `"r"`})
@@ -201,6 +202,7 @@ func newRig(push bool) *rig {
 // feed sends one record and returns the handler calls and output records it provoked.
 func (r *rig) feed(rec []byte) ([]hcall, [][]byte) {
 	c0 := len(r.calls)
+	lastFed = string(rec)
 	r.ch.Push(rec, nil)
 	synctest.Wait()
 	r.ch.Lock()
@@ -215,9 +217,24 @@ func (r *rig) alive() bool {
 	return len(calls) == 1 && len(outs) == 1 && bytes.Contains(outs[0], []byte(`"id":"probe"`)) && bytes.Contains(outs[0], []byte(`"result"`))
 }
 
+// onHang is called when a server does not finish after its channel has closed (it is stuck for good: the clock of
+// the bubble is virtual, an hour passes only when nothing in it can move).  The test records the verdict, writes its
+// result and ends the process: a bubble with goroutines that can never finish cannot be left in any other way.
+var onHang func()
+var lastFed string
+
 func (r *rig) close() {
 	r.ch.PeerClose()
-	r.srv.Wait()
+	done := make(chan struct{})
+	go func() { r.srv.Wait(); close(done) }()
+	select {
+	case <-done:
+	case <-time.After(time.Hour):
+		if onHang != nil {
+			onHang()
+		}
+		panic("server hung and no hang handler is installed")
+	}
 }
 
 // rspItem is the independent validator's view of one response object.
@@ -466,6 +483,7 @@ type result struct {
 	Evaluations int            `json:"evaluations"`
 	Cells       int            `json:"cells"`
 	Batches     int            `json:"batches"`
+	Aborted     bool           `json:"aborted"`
 	Random      int            `json:"random"`
 	Classes     map[string]int `json:"classes"`
 	Violations  []violation    `json:"violations"`
@@ -515,6 +533,17 @@ func TestWire(t *testing.T) {
 	}
 	synctest.Test(t, func(t *testing.T) {
 		for _, push := range []bool{false, true} {
+			onHang = func() {
+				// the verdict of the record that made the server stop serving is already in the list (or this is the
+				// first sign): either way the server never finishes, which is itself the failure of C02's "keeps serving"
+				addV("C02", lastFed, push, "the server never finishes after its channel closed: Wait does not return (stuck after this or a preceding record)")
+				res.Aborted = true
+				out, _ := json.Marshal(res)
+				if p := os.Getenv("VERIF_OUT"); p != "" {
+					os.WriteFile(p, out, 0o644)
+				}
+				os.Exit(0)
+			}
 			r := newRig(push)
 			verdict := func(c cellJSON) Verdict {
 				if push {
@@ -612,6 +641,82 @@ func TestWire(t *testing.T) {
 				if !push {
 					if why := checkParse(rec, cs, ks, no); why != "" {
 						addV("C13", string(rec), false, why)
+					}
+				}
+			}
+			// (2b) every composition of member classes (by verdict: run and answer, run silently, answer with an error, stay
+			// silent, ...) of length 2..4, each class represented by a random cell: where a member of one class stands
+			// relative to the others (an invalid one first, two valid ones behind it) is what the dispatch loop counts on
+			{
+				groups := map[string][]int{}
+				var gkeys []string
+				for ci, c := range tab.Cells {
+					vd := verdict(c)
+					k := fmt.Sprint(vd.Kind, "/", vd.Answer, "/", vd.MayDrop)
+					if _, ok := groups[k]; !ok {
+						gkeys = append(gkeys, k)
+					}
+					groups[k] = append(groups[k], ci)
+				}
+				sort.Strings(gkeys)
+				var pats [][]int
+				var gen func(cur []int, n int)
+				gen = func(cur []int, n int) {
+					if len(cur) == n {
+						pats = append(pats, append([]int(nil), cur...))
+						return
+					}
+					for g := range gkeys {
+						gen(append(cur, g), n)
+					}
+				}
+				for n := 2; n <= 4; n++ {
+					if n == 4 && len(gkeys) > 5 {
+						break
+					}
+					gen(nil, n)
+				}
+				for pi, pat := range pats {
+					if pi%nshard != shard {
+						continue
+					}
+					var ms []memberCase
+					var cs []cellJSON
+					var ks []int
+					var no []bool
+					used := map[string]bool{}
+					for _, g := range pat {
+						var ci int
+						var c cellJSON
+						for try := 0; ; try++ {
+							ci = groups[gkeys[g]][rng.IntN(len(groups[gkeys[g]]))]
+							c = tab.Cells[ci]
+							idt := idText(c.ID, ci)
+							if c.ID == "absent" || c.ID == "null" || !used[idt] || try > 50 {
+								used[idt] = true
+								break
+							}
+						}
+						vd := verdict(c)
+						ms = append(ms, memberCase{text: Concrete(c, ci, rng.IntN(3), rng), v: vd, id: echoText(c, vd, ci), desc: fmt.Sprint(c.Ver, "/", c.ID, "/", c.Method, "/", c.Params, "/", c.Extra)})
+						cs = append(cs, c)
+						ks = append(ks, ci)
+						no = append(no, false)
+					}
+					why, rec := checkRecord(r, ms, true)
+					res.Evaluations++
+					res.Batches++
+					if why != "" {
+						addV("C02", string(rec), push, why)
+						renew()
+					} else if !r.alive() {
+						addV("C02", string(rec), push, "server stopped serving after this record")
+						renew()
+					}
+					if !push {
+						if why := checkParse(rec, cs, ks, no); why != "" {
+							addV("C13", string(rec), false, why)
+						}
 					}
 				}
 			}
